@@ -66,6 +66,21 @@ def ret_value(v=None):
     return v
 
 
+def _rebuild_only_here(pid):
+    if os.getpid() != pid:
+        raise TypeError('this object can only be rebuilt in the process that made it (pid %d)' % pid)
+    return OnlyHere()
+
+
+class OnlyHere:
+    """Pickles fine where it was made, cannot be rebuilt in any other process (a handle to something local)."""
+    def __reduce__(self):
+        return (_rebuild_only_here, (os.getpid(),))
+
+    def __repr__(self):
+        return 'OnlyHere()'
+
+
 def _slow_box(v, sec):
     time.sleep(sec)
     return SlowBox(v, sec)
